@@ -230,3 +230,66 @@ func (w *World) forgeLowestBlock(r *Run) bool {
 	r.Count("hostile:forged-lowest-block")
 	return true
 }
+
+// RewriteAsForeignPar1 replaces the archive files present on disk by
+// what another PAR1 client would have written for the same data files:
+// volumes from the independent reference writer, optionally a comment in
+// the index, and one or two entries that are listed but not saved in
+// the volume set (status bit 0 clear) at tape-chosen places among the
+// saved ones; their files lie beside the set, or do not exist.
+func (w *World) RewriteAsForeignPar1(r *Run) {
+	t := r.T
+	t.Begin("foreign-par1-writer")
+	defer t.End()
+	var files []ref.Par1File
+	var datas [][]byte
+	for _, f := range w.Files {
+		files = append(files, ref.Par1File{Name: f.Name, Data: f.Data, Status: 1})
+		datas = append(datas, f.Data)
+	}
+	nextra := t.Draw(3, "unsaved-entries")
+	for k := 0; k < nextra; k++ {
+		extra := ref.Par1File{Name: fmt.Sprintf("listed-only%d.txt", k), Data: expandContent(ckText, t.Draw64(0, "extra-seed"), t.Draw(300, "extra-len"), 4), Status: 0}
+		at := t.Draw(len(files)+1, "extra-pos")
+		files = append(files[:at], append([]ref.Par1File{extra}, files[at:]...)...)
+		if t.Bool(2, 3, "extra-present") {
+			w.Disk.Put(filepath.Join(w.Dir, extra.Name), extra.Data)
+			w.Bystanders[filepath.Join(w.Dir, extra.Name)] = extra.Data
+		}
+		r.Probe("par1-listed-but-unsaved-entry")
+	}
+	var comment []byte
+	if t.Bool(1, 2, "comment") {
+		for _, u := range []rune("written by another client \u00e9\U0001F600")[:1+t.Draw(27, "comment-len")] {
+			if u > 0xffff {
+				u = '?'
+			}
+			comment = append(comment, byte(u), byte(u>>8))
+		}
+		r.Probe("par1-index-comment")
+	}
+	for p := range w.Created {
+		if _, ok := w.Disk.Get(p); !ok {
+			continue
+		}
+		var nb []byte
+		if p == w.Index {
+			nb = ref.BuildPar1(files, 0, comment)
+		} else {
+			v := 0
+			for k := 1; k <= w.R; k++ {
+				if w.VolumePath(k) == p {
+					v = k
+				}
+			}
+			if v == 0 {
+				continue
+			}
+			nb = ref.BuildPar1(files, uint64(v), ref.Par1Parity(datas, v))
+		}
+		w.Disk.Put(p, nb)
+		w.Created[p] = nb
+	}
+	r.Logf("archive rewritten as by another PAR1 client: %d unsaved entries, %d comment bytes", nextra, len(comment))
+	r.Probe("par1-foreign-writer")
+}
